@@ -216,10 +216,15 @@ func (t *tr) keccakMethod(recv *val, m string, ce *ast.CallExpr) callRes {
 		return callRes{}
 	case "Sum":
 		t.nargs(ce, 1)
-		if id, ok := ce.Args[0].(*ast.Ident); !ok || id.Name != "nil" {
-			t.fail("Sum with an argument other than nil")
+		if id, ok := ce.Args[0].(*ast.Ident); ok && id.Name == "nil" {
+			return callRes{vals: []*val{{t: tSlice, e: "KeccakStream.ksum " + par(t.read(recv.c))}}}
 		}
-		return callRes{vals: []*val{{t: tSlice, e: "KeccakStream.ksum " + par(t.read(recv.c))}}}
+		// Sum(b) appends the digest to b
+		b := t.eval(ce.Args[0])
+		if b.t.k != kSlice {
+			t.fail("Sum with an argument of type %s", b.t)
+		}
+		return callRes{vals: []*val{{t: tSlice, e: par(t.bytesOf(b)) + " ++ KeccakStream.ksum " + par(t.read(recv.c))}}}
 	}
 	t.fail("unsupported sha3 method %s", m)
 	return callRes{}
